@@ -28,23 +28,13 @@ func nexp() int {
 
 func inDom(v int64) bool { return vrt.And(v > -dom52, v < dom52) }
 
-// specRHA is n/d rounded half away from zero, d != 0, integers only.
+// specRHA is n/d rounded half away from zero, d != 0, integers only, branch-free:
+// |q| = floor((floor(2|n|/|d|) + 1) / 2), sign of n/d.
 func specRHA(n, d int64) int64 {
-	neg := false
-	if n < 0 {
-		n = -n
-		neg = !neg
-	}
-	if d < 0 {
-		d = -d
-		neg = !neg
-	}
-	// floor(n/d + 1/2) = floor((floor(2n/d) + 1) / 2) for n >= 0, d > 0
-	q := vrt.DivFloor(vrt.DivFloor(2*n, d)+1, 2)
-	if neg {
-		return -q
-	}
-	return q
+	an := vrt.IteInt64(n < 0, -n, n)
+	ad := vrt.IteInt64(d < 0, -d, d)
+	q := vrt.DivFloor(vrt.DivFloor(2*an, ad)+1, 2)
+	return vrt.IteInt64((n < 0) != (d < 0), -q, q)
 }
 
 func specRescale(a Amount, exp uint32) Amount {
